@@ -282,6 +282,14 @@ func outage(d *fw.Driver, res *fw.Result, seed int64, fails int, mapped bool) er
 		}()
 		o.v, o.err = cl.AddRetry(20, 22)
 	}()
+	// a notification issued while the client is between connections returns at once (whatever it can report)
+	noteDone := make(chan struct{})
+	go func() { defer close(noteDone); cl.Note(990000 + int(seed%1000)) }()
+	select {
+	case <-noteDone:
+	case <-time.After(2 * time.Second):
+		res.Add(fw.Finding{Kind: "monitor", Signature: sig + " notification blocks", Detail: "a notify-tagged call issued during the outage had not returned after 2s", Case: c})
+	}
 	// let `fails` redials be refused, then heal the network
 	for w := 0; w < 4000 && len(e.PX.AcceptTimes())-acc0 < fails; w++ {
 		time.Sleep(time.Millisecond)
@@ -464,8 +472,18 @@ func politeClose(d *fw.Driver, res *fw.Result, seed int64, kind string) error {
 
 // noReconnect: a client created WithNoReconnect.
 func noReconnect(d *fw.Driver, res *fw.Result, seed int64) error {
-	sig := "noreconnect"
-	c := map[string]interface{}{"scenario": "noreconnect", "seed": seed}
+	// the option means the same wherever it stands among the options
+	for _, order := range []string{"backoff-then-noreconnect", "noreconnect-then-backoff"} {
+		if err := noReconnectOrder(d, res, seed, order); err != nil {
+			return err
+		}
+	}
+	return nil
+}
+
+func noReconnectOrder(d *fw.Driver, res *fw.Result, seed int64, order string) error {
+	sig := "noreconnect options=" + order
+	c := map[string]interface{}{"scenario": "noreconnect", "seed": seed, "options": order}
 	e, err := scen.NewEnv(seed, 1)
 	if err != nil {
 		return err
@@ -473,7 +491,11 @@ func noReconnect(d *fw.Driver, res *fw.Result, seed int64) error {
 	defer e.Close()
 	ctx, cancel := context.WithCancel(context.Background())
 	defer cancel()
-	cl, closer, err := e.Client(ctx, jsonrpc.WithReconnectBackoff(minD, maxD), jsonrpc.WithNoReconnect(), jsonrpc.WithPingInterval(0), jsonrpc.WithTimeout(0))
+	opts := []jsonrpc.Option{jsonrpc.WithReconnectBackoff(minD, maxD), jsonrpc.WithNoReconnect(), jsonrpc.WithPingInterval(0), jsonrpc.WithTimeout(0)}
+	if order == "noreconnect-then-backoff" {
+		opts[0], opts[1] = opts[1], opts[0]
+	}
+	cl, closer, err := e.Client(ctx, opts...)
 	if err != nil {
 		return err
 	}
